@@ -41,6 +41,39 @@ def app(environ, start_response):
                 time.sleep(d)
             yield b"END " + ident()
         return gen()
+    elif path == "/gen":
+        # generated response: prod=iter|write|file|filenofd, sizes=comma list, cl=none|N, status=code, off=file offset
+        import io
+        import tempfile
+        sizes = [int(x) for x in q.get("sizes", [""])[0].split(",") if x != ""]
+        prod = q.get("prod", ["iter"])[0]
+        status = q.get("status", ["200"])[0]
+        cl = q.get("cl", ["none"])[0]
+        off = int(q.get("off", ["0"])[0])
+        chunks, k = [], 0
+        for n in sizes:
+            chunks.append(bytes((0x30 + (k + j) % 75) for j in range(n)))
+            k += n
+        hdrs = [("Content-Type", "text/plain")]
+        if cl != "none":
+            hdrs.append(("Content-Length", cl))
+        text = {"200": "200 OK", "201": "201 Created", "204": "204 No Content", "304": "304 Not Modified", "404": "404 Not Found"}[status]
+        write = start_response(text, hdrs)
+        if prod == "write":
+            for c in chunks:
+                write(c)
+            return []
+        if prod in ("file", "filenofd"):
+            data = b"".join(chunks)
+            if prod == "file":
+                f = tempfile.TemporaryFile()
+                f.write(data)
+                f.flush()
+            else:
+                f = io.BytesIO(data)
+            f.seek(off)
+            return environ["wsgi.file_wrapper"](f)
+        return chunks
     elif path == "/echo":
         n = len(environ["wsgi.input"].read())
         body = b"len=%d " % n + ident()
